@@ -843,3 +843,35 @@ def writes_in(body):
         if s["k"] == "assign" and s["place"]["p"] and not s["exp"]:
             out.append((bi, si, body.rec_place(s["place"], bi, si), body.rec_rvalue(s["rv"], bi, si)))
     return out
+
+
+def raw_root(body, op, depth=0):
+    """provenance of an operand WITHOUT the clone/borrow transparency of expression recovery:
+    ('param', l) when it is (a projection of / reference into) a parameter, ('clone', l, where) when the chain passes through a
+    Clone::clone / to_owned call (a snapshot taken at `where`), ('call', name) / ('other',) otherwise"""
+    if op["k"] not in ("move", "copy") or depth > 12:
+        return ("other",)
+    l = op["place"]["l"]
+    if 1 <= l <= body.arg_count:
+        return ("param", l)
+    ds = body.defs().get(l, [])
+    if len(ds) != 1:
+        return ("other",)
+    bb, idx = ds[0]
+    if idx == "T":
+        t = body.term(bb)
+        n = callee_name(t)
+        if n.endswith("::clone") or n.endswith("::to_owned") or n.endswith("Clone::clone"):
+            return ("clone", l, body.where(bb))
+        if t["args"] and (n.endswith("::deref") or n.endswith("::deref_mut") or n.endswith("::borrow") or n.endswith("::as_ref")):
+            return raw_root(body, t["args"][0], depth + 1)
+        return ("call", n)
+    st = body.blocks[bb]["stmts"][idx]
+    rv = st["rv"]
+    if rv["k"] in ("ref", "rawptr"):
+        return raw_root(body, {"k": "copy", "place": rv["place"]}, depth + 1)
+    if rv["k"] == "use":
+        return raw_root(body, rv["op"], depth + 1)
+    if rv["k"] == "cast":
+        return raw_root(body, rv["op"], depth + 1)
+    return ("other",)
